@@ -29,7 +29,8 @@ man = {
 for p in props:
     pid = p["id"]
     path = os.path.join(HERE, "vf", "props", pid.lower() + ".py")
-    if not os.path.exists(path):
+    enabled = open(os.path.join(HERE, "tools", "enabled.txt")).read().split()
+    if not os.path.exists(path) or pid not in enabled:
         man["not_applicable"].append({"property_id": pid, "reason": "check not built yet in this round (runtime monitoring applies; see DESIGN.md section 4)"})
         continue
     src = open(path).read()
